@@ -19,4 +19,4 @@ def run(ctx):
     ctx.explain("E-COUNT.underflow: no unsigned local that starts at the literal 0 is only ever decremented (it would underflow at its "
                 "first update); detector checked against a built-in positive example on every run.")
     ecount.run(ctx, F, ('linear_hashtbl',))
-    ctx.not_decided = "set semantics over operation sequences, iteration exactness, retain's predicate semantics"
+    ctx.not_decided = "set semantics over arbitrary operation sequences and table sizes (single operations are decided from all well-formed 4-slot states), iteration exactness, rehashing / growth"
